@@ -475,7 +475,7 @@ func c13UnguardedDeref(c *core.Ctx, g *c13Graph, field *types.Var) string {
 			states, seen := c13StatesAt(c, f, site, flow.Config{
 				Track: func(k string) bool { return k == key || strings.HasPrefix(k, "v:") },
 				Pure:  c13PureFor(f, c13BaseObj(f, site)),
-			})
+			}, func(st *flow.State) bool { return st.Is(key, flow.False) })
 			if !seen {
 				continue
 			}
